@@ -12,6 +12,7 @@ import (
 	"sort"
 	"strings"
 	"sync"
+	"sync/atomic"
 	"testing/synctest"
 	"time"
 
@@ -80,6 +81,80 @@ type Env struct {
 	muted   bool
 	closed  bool
 	pollerBusy bool
+	readers []*reader
+}
+
+// reader: a goroutine that calls handles concurrently with whatever the store is doing. It runs
+// one burst when poked (just before the driver's next step) and parks again, so that the bubble
+// still becomes quiescent after every step.
+type reader struct {
+	id   string
+	poke chan []string // names to read in this burst
+	done chan struct{}
+}
+
+// InRead is the watchdog's view (outside the bubble, real time): number of handle calls in progress
+// and a counter that moves whenever one completes.
+var InRead, ReadsDone atomic.Int64
+
+func (e *Env) StartReaders(ids []string) {
+	for _, id := range ids {
+		r := &reader{id: id, poke: make(chan []string), done: make(chan struct{})}
+		e.readers = append(e.readers, r)
+		go func() {
+			defer close(r.done)
+			for burst := range r.poke {
+				for _, name := range burst {
+					e.mu.Lock()
+					h := e.handles[name]
+					e.mu.Unlock()
+					if h == nil {
+						continue
+					}
+					e.Log(Event{"ev": "rbegin", "reader": r.id, "name": name})
+					v := e.callHandle(name, h)
+					e.Log(Event{"ev": "rend", "reader": r.id, "name": name, "ver": v})
+				}
+			}
+		}()
+	}
+}
+
+// callHandle calls a handle and classifies what came back (-1: torn/foreign/panic).
+func (e *Env) callHandle(name string, h setec.Secret) (ver int) {
+	InRead.Add(1)
+	defer func() {
+		InRead.Add(-1)
+		ReadsDone.Add(1)
+		if r := recover(); r != nil {
+			e.Note("calling the handle of %q panicked: %v", name, r)
+			ver = -1
+		}
+	}()
+	b := h.Get()
+	n, v, whole := ParseValue(b)
+	if !whole || n != name {
+		e.Note("handle of %q returned a torn or foreign value %q", name, b)
+		return -1
+	}
+	return v
+}
+
+// PokeReaders starts one burst in every reader; the bursts run concurrently with the next step.
+func (e *Env) PokeReaders(bursts [][]string) {
+	for i, r := range e.readers {
+		if i < len(bursts) && len(bursts[i]) > 0 {
+			r.poke <- bursts[i]
+		}
+	}
+}
+
+func (e *Env) StopReaders() {
+	for _, r := range e.readers {
+		close(r.poke)
+		<-r.done
+	}
+	e.readers = nil
 }
 
 // Cleanup ends everything still running so that the bubble can exit; nothing is logged any more.
@@ -115,6 +190,7 @@ func (e *Env) Cleanup() {
 		}
 	}
 	synctest.Wait()
+	e.StopReaders()
 	if st := e.theStore(); st != nil {
 		st.Close()
 	}
@@ -384,7 +460,9 @@ func (e *Env) Apply(s Step) bool {
 				}
 			}
 		}
+		e.mu.Lock()
 		e.handles = map[string]setec.Secret{}
+		e.mu.Unlock()
 		kind := "none"
 		var doc []docEntry = []docEntry{}
 		if e.cache != nil {
@@ -515,33 +593,24 @@ func (e *Env) Apply(s Step) bool {
 			if h == nil {
 				res = "nil"
 			} else {
+				e.mu.Lock()
 				e.handles[s.Name] = h
+				e.mu.Unlock()
 			}
 		}()
 		e.Log(Event{"ev": "handle", "name": s.Name, "res": res})
 	case "read":
+		e.mu.Lock()
 		h := e.handles[s.Name]
+		e.mu.Unlock()
 		if h == nil {
 			return false
 		}
-		done := make(chan []byte, 1)
-		go func() {
-			defer func() {
-				if r := recover(); r != nil {
-					e.Note("calling the handle of %q panicked: %v", s.Name, r)
-					done <- nil
-				}
-			}()
-			done <- h.Get()
-		}()
+		done := make(chan int, 1)
+		go func() { done <- e.callHandle(s.Name, h) }()
 		synctest.Wait()
 		select {
-		case b := <-done:
-			n, v, whole := ParseValue(b)
-			if !whole || n != s.Name {
-				e.Note("handle of %q returned a torn or foreign value %q", s.Name, b)
-				v = -1
-			}
+		case v := <-done:
 			e.Log(Event{"ev": "read", "name": s.Name, "ver": v})
 		default:
 			e.Note("calling the handle of %q blocked (it waited for something)", s.Name)
